@@ -28,6 +28,20 @@ Theorem C12_static_partition : forall c, pf_dom c ->
 Proof. exact C12_static_partition_proof. Qed.
 Print Assumptions C12_static_partition.
 
+(* static path, parallel_for called from a worker of the pool (ring index r): the caller runs chunk r instead of the last
+   one and the scheduler index is remapped around it (par_for_static.h:106-126).  For EVERY ring index the chunk indices
+   that are executed are a permutation of 0 .. n-1, hence the chunks executed are, as a multiset, the plan static_calls
+   lists (B = its chunk list) -- the ring only decides who runs which chunk *)
+Theorem C12_static_caller_ring_irrelevant : forall n wait ring, 1 <= n ->
+  Permutation (static_chunk_indices n wait ring) (zrange 0 (Z.to_nat n)).
+Proof. exact static_chunk_indices_perm. Qed.
+Print Assumptions C12_static_caller_ring_irrelevant.
+
+Theorem C12_static_chunks_any_caller : forall (B : list (Z * Z)) wait ring, (1 <= length B)%nat ->
+  Permutation (map (fun i => nth (Z.to_nat i) B (0, 0)) (static_chunk_indices (Z.of_nat (length B)) wait ring)) B.
+Proof. intros B wait ring. exact (static_ring_independent B (0, 0) wait ring). Qed.
+Print Assumptions C12_static_chunks_any_caller.
+
 (* dynamic path (explicit chunk size; auto chunking with wait=false): for EVERY claim order and every L3 group count
    (single shared counter and per-group counters), once all workers have left their loops the invocations -- including
    the granularity tail run by the last exiting worker resp. the caller -- tile [start, end) *)
